@@ -22,9 +22,9 @@ shut / step / open, poll trigger, half-close, send timeout):
 * the side conditions (`OpOK`), beyond those of `C04Refine.OpOK`: a `Subscribe` call carries a request
   (`Recv` returning EOF first is not an LTS step) whose paths complete; `StaleFree` on cache calls
   (see `Refine.StaleFree`; it concerns only unregistered subscribers that hold handles queued, i.e. ONCE
-  / POLL under flow control); a half-close finds no response held by the sender — `eof_held_differs`:
-  there the two models differ, and the real server sides with the LTS
-  (`/var/tmp/bC05L/witness/eof_held.ops`);
+  / POLL under flow control).  A half-close needs no side condition: `eof_held_agrees` — a response held
+  inside a gated `Send` when the client half-closes is dropped in both models, as on the real server
+  (`corpus/C05/eof_with_response_held.ops`);
 * transfers: `seq_once_concurrent` (`C05L.once_concurrent` on every SEQ-reachable state),
   `seq_poll_round` (`C05L.poll_rounds` for a poll trigger of the sequential model), with the comparison
   to the SEQ theorems (`once_agrees`, `poll_round_agrees`).
@@ -49,7 +49,6 @@ def OpOK (reqs : Nat → Sub.Req × Sub.Acl) (enc : String → String) (st : Sub
   | .g (.ca op) =>
     Feed.Op.ok st.cache op ∧ NoStarOp op ∧ (∀ e ∈ (st.cache.step enc op).2.2, EvPlain e) ∧
       ∀ s ∈ st.subs, s.alive = true → s.regs = [] → StaleFree [] s.queue (st.cache.step enc op).2.2
-  | .eof id => ∀ s ∈ st.subs, s.id = id → s.alive = true → s.req.mode = .poll → s.blocked = none
   | _ => True
 
 /-- the simulation relation, with what the cache lemmas of C03 need to keep it -/
@@ -176,7 +175,7 @@ theorem seq_step_simulated (reqs : Nat → Sub.Req × Sub.Acl) (enc : String →
     obtain ⟨ls, c', hf, hrel⟩ := poll_simX reqs h.rel id
     exact ⟨ls, c', hf, hrel, h.sinv, h.ed⟩
   | eof id =>
-    obtain ⟨ls, c', hf, hrel⟩ := eof_simX reqs h.rel id hok
+    obtain ⟨ls, c', hf, hrel⟩ := eof_simX reqs h.rel id
     exact ⟨ls, c', hf, hrel, h.sinv, h.ed⟩
   | expire =>
     obtain ⟨ls, c', hf, hrel⟩ := expire_simX reqs h.rel
@@ -634,7 +633,7 @@ theorem poll_round_agrees (reqs : Nat → Sub.Req × Sub.Acl) (enc : String → 
   rw [h1, hout2, List.map_append, ← h0] at hmap
   exact (List.append_cancel_left hmap).symm
 
-/-! ## where the two models differ: a half-close while a response is held -/
+/-! ## a half-close while a response is held: the two models agree -/
 
 def reqPoll : Sub.Req := { target := "t", mode := .poll, subs := [{ path := ["a"] }, { path := ["c"] }] }
 def reqOnce : Sub.Req := { target := "t", mode := .once, subs := [{ path := ["a"] }, { path := ["c"] }] }
@@ -670,32 +669,22 @@ theorem ended_sends_nothing (reqs : Nat → Sub.Req × Sub.Acl) {c c' : LCfg} {l
     · show (SubLTS.setFn c.subs s1 b' i).sent = _
       rw [SubLTS.setFn_other _ _ e]
 
-/-- **`eof` while a response is held: the two models differ** (and the real server sides with the LTS:
-`/var/tmp/bC05L/witness/eof_held.ops` — `su eof` on a pre-gated POLL subscriber, `gate open`, `drain`:
-the server delivers nothing, the sequential model one update).  `Sub.eof` ends the subscriber but leaves
-the held response in place, and `Sub.setGate` releases a held response without looking at `alive`: after
-the half-close the subscriber has ended OK having been sent nothing, and opening the gate then appends
-the held update to what it "was sent".  In the LTS (as in the server: the handler has returned, the
-stream is gone) an ended RPC never sends anything more.  Hence the side condition of `OpOK` on `eof`
-(no response held), which fails exactly here. -/
-theorem eof_held_differs :
+/-- **`eof` while a response is held: the two models agree** (formerly `eof_held_differs`: `Sub.eof` left
+the held response in place and `Sub.setGate` released it after the RPC had ended; the real server delivers
+nothing — `corpus/C05/eof_with_response_held.ops` — and `Sub.eof` now drops the held response, as
+`Sub.expire` does).  After the half-close the subscriber has ended OK, holds nothing and was sent nothing;
+opening the gate afterwards delivers nothing.  In the LTS an ended RPC never sends anything more
+(`ended_sends_nothing`).  `histEof` satisfies the side conditions (`histEof_okHist`): `eof` has none. -/
+theorem eof_held_agrees :
+    (xrun id { pregated := ["p1"] } (histEof.take 3)).subs.map
+      (fun s => (s.alive, s.blocked.isSome, s.out.length)) = [(true, true, 0)] ∧
     (xrun id { pregated := ["p1"] } (histEof.take 4)).subs.map
-      (fun s => (s.alive, s.status, s.blocked.isSome, s.out.length)) = [(false, some .ok, true, 0)] ∧
-    (xrun id { pregated := ["p1"] } histEof).subs.map (fun s => (s.alive, s.out.length)) = [(false, 1)] ∧
-    ¬ OpOK (fun _ => (reqPoll, .absent)) id (xrun id { pregated := ["p1"] } (histEof.take 3)) (.eof "p1") ∧
+      (fun s => (s.alive, s.status, s.blocked.isSome, s.out.length)) = [(false, some .ok, false, 0)] ∧
+    (xrun id { pregated := ["p1"] } histEof).subs.map (fun s => (s.alive, s.out.length)) = [(false, 0)] ∧
     ∀ (reqs : Nat → Sub.Req × Sub.Acl) (c c' : LCfg) (l : GL), SubLTS.Reach (C06Glue.subSys reqs) c → ∀ i,
       (c.subs i).status ≠ none → SubLTS.Step (C06Glue.subSys reqs) c l c' →
-      (c'.subs i).sent = (c.subs i).sent := by
-  refine ⟨by decide, by decide, ?_, fun reqs c c' l hr i hst hs => ended_sends_nothing reqs hr i hst hs⟩
-  intro h
-  have hex : ∃ s ∈ (xrun id { pregated := ["p1"] } (histEof.take 3)).subs,
-      (decide (s.id = "p1") && s.alive && decide (s.req.mode = .poll) && s.blocked.isSome) = true := by decide
-  obtain ⟨s, hs, hc⟩ := hex
-  simp only [Bool.and_eq_true, decide_eq_true_eq] at hc
-  obtain ⟨⟨⟨h1, h2⟩, h3⟩, h4⟩ := hc
-  have := h s hs h1 h2 h3
-  rw [this] at h4
-  cases h4
+      (c'.subs i).sent = (c.subs i).sent :=
+  ⟨by decide, by decide, by decide, fun reqs c c' l hr i hst hs => ended_sends_nothing reqs hr i hst hs⟩
 
 /-! ## Non-vacuity: a history with a ONCE, a POLL and a STREAM subscriber, flow control, poll triggers,
 a write racing a round held back by flow control, a half-close and the send timeout -/
@@ -753,11 +742,25 @@ theorem histP_okHist : OkHist reqsP id { cache := { cfg := C04Refine.cfgX }, pre
     ⟨oneC _ _ _, trivial, by decide, staleFree_all _ _ (by decide)⟩,
     trivial,
     ⟨C04Refine.reqA, rfl, rfl, fun _ => by decide⟩,
-    ?_, trivial, trivial⟩
-  -- the half-close: nothing is held
-  have : ∀ s ∈ (xrun id { cache := { cfg := C04Refine.cfgX }, pregated := ["o1"] } (histP.take 14)).subs,
-      s.blocked = none := by decide
-  exact fun s hs _ _ _ => this s hs
+    trivial, trivial, trivial⟩
+
+/-- `histEof` (the half-close while a response is held, then `gateOpen`) is a history of the simulated
+operations: no side condition on `eof` -/
+theorem histEof_okHist :
+    OkHist (fun _ => (reqPoll, .absent)) id { cache := { cfg := C04Refine.cfgX }, pregated := ["p1"] } histEof := by
+  refine ⟨⟨⟨by decide, rfl⟩, (by show _ ≠ _; decide), by decide, staleFree_all _ _ (by decide)⟩,
+    ⟨?_, trivial, by decide, staleFree_all _ _ (by decide)⟩,
+    ⟨reqPoll, rfl, rfl, fun _ => by decide⟩, trivial, trivial, trivial⟩
+  intro u hu
+  simp only [C04Refine.nA, List.mem_cons, List.not_mem_nil, or_false] at hu
+  subst hu
+  refine ⟨?_, Or.inr rfl, ?_⟩
+  · show ¬ glob ∈ joinKey _ _
+    simp [joinKey, C04Refine.nA, glob]
+  · show (joinKey _ _).head? ≠ some ""
+    simp [joinKey, C04Refine.nA]
+
+example := seq_reachable_in_lts (fun _ => (reqPoll, .absent)) id C04Refine.cfgX rfl ["p1"] histEof histEof_okHist
 
 /-- the run is not trivial (timestamps of the updates, `none` = sync): the ONCE subscriber ended OK after
 `[a@1, c@1, sync]`; the POLL subscriber was sent three rounds — `a@1 c@1`, `a@2 c@1`, and, the third round
